@@ -30,7 +30,12 @@ CLOSE_SYM = (b')', b'}', b']')
 
 def plan(tier, seed):
     n = 16 if tier == 'quick' else 64
-    return [{'count': 110 if tier == 'quick' else 600, 'deep': tier == 'thorough' and i % 4 == 2} for i in range(n)]
+    specs = [{'count': 110 if tier == 'quick' else 600, 'deep': tier == 'thorough' and i % 4 == 2} for i in range(n)]
+    for i in range(2 if tier == 'quick' else 8):
+        specs.append({'kind': 'deep', 'count': 24 if tier == 'quick' else 96})
+    for i in range(2 if tier == 'quick' else 6):
+        specs.append({'kind': 'bigcart', 'width': (4, 8, 3, 6, 2, 5)[i], 'stmts': 150})
+    return specs
 
 
 def fmt(src, width):
@@ -50,8 +55,9 @@ def fmt_twice_same_args(src, width):
     return a, b
 
 
-def fmt_cli(src, width, workdir):
-    """`p8tool luafmt --indentwidth N cart.p8` -> code of cart_fmt.p8 (reference reader)."""
+def fmt_cli(src, width, workdir, overwrite=False):
+    """`p8tool luafmt --indentwidth N cart.p8` -> code of cart_fmt.p8 (reference reader); with overwrite: `--overwrite`, code of
+    cart.p8 itself afterwards."""
     import os
     from pico8 import tool
     from .. import refcodec as rc, carts
@@ -63,10 +69,10 @@ def fmt_cli(src, width, workdir):
         os.remove(pf)
     with open(p1, 'wb') as fh:
         fh.write(rc.write_p8(regions, src, version=8))
-    rcode = tool.main(['-q', 'luafmt', '--indentwidth', str(width), p1])
+    rcode = tool.main(['-q', 'luafmt'] + (['--overwrite'] if overwrite else []) + ['--indentwidth', str(width), p1])
     if rcode:
         raise RuntimeError('p8tool luafmt returned %r' % rcode)
-    with open(pf, 'rb') as fh:
+    with open(p1 if overwrite else pf, 'rb') as fh:
         return rc.read_p8(fh.read())['code']
 
 
@@ -284,6 +290,23 @@ def check_one(ctx, src, width, case, metamorphic_rng=None):
             ctx.violation('p8tool luafmt --indentwidth %d writes different code than the library formatter at width %d (byte %d: %r vs %r)' % (
                 width, width, d, got[max(0, d - 20):d + 20], lib[max(0, d - 20):d + 20]), case)
             return
+        # `luafmt --overwrite` on a cart whose code is already canonical except for blanks at its very end (and on the plain source)
+        tails = (b'', b'\n', b'\n\n', b'  \n', b'\n \t\n', b'   ', b'\n\n\n')
+        tail = tails[ctx.monitors.get('overwrite_runs', 0) % len(tails)]
+        almost = out.rstrip(b'\n') + tail
+        if reflex.try_lex(almost)[1] is None:
+            try:
+                got = fmt_cli(almost, width, case['cli_dir'], overwrite=True)
+                lib = fmt(almost if almost.endswith(b'\n') else almost + b'\n', width)
+            except Exception as e:
+                ctx.violation('p8tool luafmt --overwrite --indentwidth %d failed on canonical code plus trailing blanks: %r' % (width, e), case)
+                return
+            ctx.monitor('overwrite_runs')
+            ctx.feature('overwrite_tail_%d' % tails.index(tail))
+            if got != lib and got != lib + b'\n':
+                ctx.violation('p8tool luafmt --overwrite leaves code that is not the canonical form (canonical code followed by %r): the file ends %r, '
+                              'the formatter gives %r' % (tail, got[-20:], lib[-20:]), dict(case, src=almost))
+                return
     # (1) metamorphic pair
     if metamorphic_rng is not None:
         src2 = reindent(src, metamorphic_rng)
@@ -308,12 +331,148 @@ def check_one(ctx, src, width, case, metamorphic_rng=None):
             ctx.violation(p, dict(case, src2=src2), key=classify(src, out, p) or classify(src2, outb, p))
 
 
+def deep_program(rng, depth):
+    """A chain of `depth` nested openers (block statements, function bodies, tables, call parentheses), one per line, with a
+    statement or field at every level; written without indentation."""
+    lines = []
+    closers = []
+    ctxs = ['block']
+    for d in range(depth):
+        cur = ctxs[-1]
+        if cur == 'block':
+            k = rng.choice(('if', 'do', 'while', 'for', 'function', 'table', 'call', 'repeat', 'ifelse'))
+            if k == 'if':
+                lines.append(b'if x%d then' % d); closers.append([b'end']); ctxs.append('block')
+            elif k == 'ifelse':
+                lines.append(b'if x%d then' % d); closers.append([b'else', b'y=%d' % d, b'end']); ctxs.append('block')
+            elif k == 'do':
+                lines.append(b'do'); closers.append([b'end']); ctxs.append('block')
+            elif k == 'while':
+                lines.append(b'while x%d do' % d); closers.append([b'end']); ctxs.append('block')
+            elif k == 'for':
+                lines.append(b'for i%d=1,2 do' % d); closers.append([b'end']); ctxs.append('block')
+            elif k == 'repeat':
+                lines.append(b'repeat'); closers.append([b'until x%d' % d]); ctxs.append('block')
+            elif k == 'function':
+                lines.append(b'function f%d(a,b)' % d); closers.append([b'end']); ctxs.append('block')
+            elif k == 'table':
+                lines.append(b't%d={' % d); closers.append([b'}']); ctxs.append('table')
+            else:
+                lines.append(b'f%d(' % d); closers.append([b')']); ctxs.append('args')
+            if ctxs[-1] == 'block' and rng.random() < 0.6:
+                lines.append(b'local v%d=%d' % (d, d))
+        elif cur == 'table':
+            k = rng.choice(('table', 'function', 'keytable', 'call'))
+            if rng.random() < 0.6:
+                lines.append(b'%d,' % d)
+            if k == 'table':
+                lines.append(b'{'); closers.append([b'}']); ctxs.append('table')
+            elif k == 'keytable':
+                lines.append(b'k%d={' % d); closers.append([b'}']); ctxs.append('table')
+            elif k == 'function':
+                lines.append(b'function()'); closers.append([b'end']); ctxs.append('block')
+            else:
+                lines.append(b'g('); closers.append([b')']); ctxs.append('args')
+        else:  # args
+            k = rng.choice(('table', 'function', 'call'))
+            if rng.random() < 0.5:
+                lines.append(b'%d,' % d)
+            if k == 'table':
+                lines.append(b'{'); closers.append([b'}']); ctxs.append('table')
+            elif k == 'function':
+                lines.append(b'function()'); closers.append([b'end']); ctxs.append('block')
+            else:
+                lines.append(b'h('); closers.append([b')']); ctxs.append('args')
+    lines.append({'block': b'z=1', 'table': b'99', 'args': b'98'}[ctxs[-1]])
+    for c in reversed(closers):
+        lines.extend(c)
+    return b'\n'.join(lines) + b'\n'
+
+
+def run_deep(spec, ctx, cli_dir):
+    """Indentation wider than any screen: nesting depth x width up to several hundred columns."""
+    rng = ctx.rng
+    for i in range(spec['count']):
+        depth = (12, 18, 22, 28, 45, 85)[i % 6]
+        width = (8, 7, 5, 4, 3, 2, 1, 6)[i % 8] if depth < 85 else (1, 2)[i % 2]
+        src = deep_program(rng, depth)
+        if reflex.try_lex(src)[1] is not None:
+            ctx.monitor('generator_rejects')
+            continue
+        try:
+            from pico8.lua import lua
+            lua.Lua.from_lines([src], version=8)
+        except Exception as e:
+            ctx.inconclusive_because('deep-nesting generator produced a program picotool rejects: %r' % (e,))
+            return
+        ctx.feature('deep_nesting_programs')
+        if depth * width > 80:
+            ctx.feature('indentation_beyond_80_columns')
+        if depth * width > 160:
+            ctx.feature('indentation_beyond_160_columns')
+        case = {'src': src, 'width': width, 'style': 'deep', 'scopes': [], 'nsig': len(reflex.sig(reflex.lex(src)))}
+        if i % 4 == 0:
+            case['cli_dir'] = cli_dir
+        check_one(ctx, src, width, case, metamorphic_rng=rng)
+        case.pop('cli_dir', None)
+    ctx.sample({'deep_program': deep_program(rng, 6)})
+
+
+def run_bigcart(spec, ctx, cli_dir):
+    """The command line on cart-sized code: within 65535 characters as loaded, beyond it once indented."""
+    rng = ctx.rng
+    parts = []
+    size = 0
+    target = spec.get('chars', 56000)
+    for attempt in range(400):
+        if size >= target:
+            break
+        p = progen.gen_program(rng, {'depth': 3, 'max_stmts': 3, 'top_stmts': 12, 'goto': False, 'multiline_strings': False,
+                                     'stat_bias': ['if', 'do', 'while', 'forstep', 'function'] * 4, 'glyph_names': False})
+        one = layout.render(p, rng, style='lines', crlf=False)
+        if one is None or any(t.kind in ('string', 'comment') and b'\n' in t.raw for t in reflex.lex(one)):
+            continue
+        one = b'do\n' + b'\n'.join(l.lstrip(b' \t') for l in one.split(b'\n')).rstrip(b'\n') + b'\nend\n'
+        if size + len(one) > 65000:
+            continue
+        parts.append(one)
+        size += len(one)
+    src = b''.join(parts)
+    if not (30000 <= len(src) <= 65535) or reflex.try_lex(src)[1] is not None:
+        ctx.inconclusive_because('no cart-sized program within 30000..65535 characters generated (%d)' % len(src))
+        return
+    width = spec.get('width', 4)
+    lib = fmt(src if src.endswith(b'\n') else src + b'\n', width)
+    ctx.feature('cart_sized_cli_runs')
+    ctx.monitor('cart_sized_formatted_chars', len(lib))
+    if len(src) <= 65535 < len(lib):
+        ctx.feature('formatted_code_exceeds_65535_chars')
+    case = {'src': src, 'width': width, 'style': 'bigcart', 'scopes': [], 'nsig': -1}
+    ctx.case((src, width), nontrivial=True)
+    try:
+        got = fmt_cli(src, width, cli_dir)
+    except Exception as e:
+        ctx.violation('p8tool luafmt --indentwidth %d failed on a cart-sized program: %r' % (width, e), case)
+        return
+    ctx.monitor('cli_outputs_compared')
+    if got != lib and got != lib + b'\n':
+        d = next((i for i in range(min(len(got), len(lib))) if got[i] != lib[i]), min(len(got), len(lib)))
+        ctx.violation('p8tool luafmt --indentwidth %d on a cart-sized program (%d characters, %d formatted) writes different code than the '
+                      'library formatter (byte %d: %r vs %r)' % (width, len(src), len(lib), d, got[max(0, d - 20):d + 20],
+                                                                 lib[max(0, d - 20):d + 20]), case)
+
+
 def run_shard(spec, ctx):
     import shutil
     import tempfile
     cli_dir = tempfile.mkdtemp(prefix='vf-c10-')
     try:
-        _run_shard(spec, ctx, cli_dir)
+        if spec.get('kind') == 'deep':
+            run_deep(spec, ctx, cli_dir)
+        elif spec.get('kind') == 'bigcart':
+            run_bigcart(spec, ctx, cli_dir)
+        else:
+            _run_shard(spec, ctx, cli_dir)
     finally:
         shutil.rmtree(cli_dir, ignore_errors=True)
 
@@ -373,6 +532,12 @@ def gates(m, tier):
             missed.append('%s seen %d times' % (k, f.get(k, 0)))
     if mon.get('cli_outputs_compared', 0) < 50 or mon.get('shared_args_passes', 0) < 100:
         missed.append('route independence: cli %d, shared args %d' % (mon.get('cli_outputs_compared', 0), mon.get('shared_args_passes', 0)))
+    if f.get('indentation_beyond_80_columns', 0) < 10 or f.get('indentation_beyond_160_columns', 0) < 3:
+        missed.append('indentation beyond 80 columns: %d programs (beyond 160: %d)' % (
+            f.get('indentation_beyond_80_columns', 0), f.get('indentation_beyond_160_columns', 0)))
+    if f.get('formatted_code_exceeds_65535_chars', 0) < 1 or mon.get('overwrite_runs', 0) < 50:
+        missed.append('command line: carts whose formatted code exceeds 65535 characters %d, --overwrite runs %d' % (
+            f.get('formatted_code_exceeds_65535_chars', 0), mon.get('overwrite_runs', 0)))
     if mon.get('lines_measured', 0) < 3000:
         missed.append('lines measured: %d' % mon.get('lines_measured', 0))
     return missed
